@@ -203,6 +203,7 @@ func c19(c *an.Check) {
 			fmt.Sprintf("both switch over %v", got), fmt.Sprintf("read loop handles %v but SessionResponse.Validate knows %v", got, want))
 	}
 	sessionMsgWrappers(c)
+	signedMsgCore(c)
 	c.Note("not decided: that a message was submitted for delivery to this peer — the signed bytes contain neither the recipient nor the session epoch, so re-targeting by the relay cannot be excluded by any check on this code (DESIGN §4 C19)")
 }
 
@@ -412,6 +413,7 @@ func c20(c *an.Check) {
 			fmt.Sprintf("loop ∪ init = %v", got), fmt.Sprintf("read loop (∪ init) handles %v but SessionRequest.Validate knows %v", got, want))
 	}
 	sessionMsgWrappers(c)
+	signedMsgCore(c)
 	serverLockset(c)
 }
 
